@@ -266,6 +266,63 @@ fn add<V: Full>(prop: &mut Property, ctx: &Ctx) {
     }
 }
 
+/// every piece length (shared with C02): the altered tokens fail authentication, so the callbacks stay silent
+fn long_pieces<V: Full>(prop: &mut Property, ctx: &Ctx) {
+    let name = V::NAME;
+    let ks = Arc::new(keys::keyset::<V>(false, 0));
+    for local in [true, false] {
+        let specs = Arc::new(crate::c02::long_piece_specs::<V>(ctx.thorough()));
+        let pname = if local { "local" } else { "public" };
+        let ks = ks.clone();
+        prop.subs.push(
+            Sub::new(
+                format!("{name}/{pname}/failing-piece-lengths"),
+                specs.len() as u64,
+                "C02's piece-length enumeration (one of message / footer / assertion takes every length, every piece then altered in its first / middle / last byte or replaced) unsealed with the recording payload decoder, footer decoder and validator",
+                move |idx, describe| {
+                    let (ml, fl, al) = specs[idx as usize];
+                    let mut o = Outcome::new();
+                    o.evals = 0;
+                    if describe {
+                        o.sample = Some(json!({"backend": name, "purpose": pname, "message_len": ml + 2, "footer_len": fl, "assertion_len": al}));
+                    }
+                    let msg = msg_for(ml, true);
+                    let base = match crate::c02::long_piece_base::<V>(local, &ks.locals[2].bytes, &ks.secrets[0].bytes, &msg, fl, al) {
+                        Ok(b) => b,
+                        Err(e) => {
+                            o.violate_env(format!("{name}/{pname}/piece-lengths/seal"), format!("cannot seal: {e}"), json!({}));
+                            return o;
+                        }
+                    };
+                    for f in crate::faults::piece_faults::<V>(&base) {
+                        o.evals += 1;
+                        match monitored::<V>(local, &f.token, &base.key, &f.aad) {
+                            Err(p) => o.violate(format!("{name}/{pname}/{}/panic", f.class), p, json!({"token": f.token})),
+                            Ok((r, ev)) => {
+                                let called = ev.iter().any(|e| matches!(e, Event::PayloadDecode(_) | Event::Validate(_)));
+                                if called {
+                                    o.violate(
+                                        format!("{name}/{pname}/{}/callback-on-unauthenticated", f.class),
+                                        format!("lengths {:?}, {}: payload decoder / validator invoked for a token that must fail authentication; result {:?}", (ml + 2, fl, al), f.label, r.as_ref().map(|c| c.len())),
+                                        json!({"token": f.token, "assertion": hexs(&f.aad)}),
+                                    );
+                                } else if matches!(r, Err("CryptoError") | Err("InvalidToken") | Err("ClaimsError")) {
+                                    o.class("silent-rejection");
+                                } else {
+                                    o.violate(format!("{name}/{pname}/{}/result", f.class), format!("lengths {:?}, {}: result {:?}", (ml + 2, fl, al), f.label, r.as_ref().map(|c| c.len())), json!({"token": f.token}));
+                                }
+                            }
+                        }
+                    }
+                    o.nontrivial = o.evals;
+                    o
+                },
+            )
+            .witness(&["silent-rejection"]),
+        );
+    }
+}
+
 /// tokens whose footer was altered on the wire into bytes that decode to the same typed value: they fail
 /// authentication like any other altered footer, so the payload decoder and the validator must stay silent
 fn value_preserving_footer<V: Full>(prop: &mut Property) {
@@ -349,6 +406,12 @@ pub fn build(ctx: &Ctx) -> Property {
     add::<backends::V3L>(&mut p, ctx);
     add::<backends::V4>(&mut p, ctx);
     add::<backends::V4S>(&mut p, ctx);
+    long_pieces::<backends::V1>(&mut p, ctx);
+    long_pieces::<backends::V2>(&mut p, ctx);
+    long_pieces::<backends::V3>(&mut p, ctx);
+    long_pieces::<backends::V3L>(&mut p, ctx);
+    long_pieces::<backends::V4>(&mut p, ctx);
+    long_pieces::<backends::V4S>(&mut p, ctx);
     value_preserving_footer::<backends::V1>(&mut p);
     value_preserving_footer::<backends::V2>(&mut p);
     value_preserving_footer::<backends::V3>(&mut p);
